@@ -4,4 +4,4 @@ From Coq Require Extraction.
 From Coq Require Import ExtrOcamlBasic.
 From CC Require Import Bytes Codec Utf8 Lines Json Sri Record Fs Prog Api Sess.
 Extraction Language OCaml.
-Extraction "model.ml" step parse_op show_outcome dump sstate0 pseudo_now s_fs dec_of_N take_digits b2n.
+Extraction "model.ml" step step_crash parse_op show_outcome dump sstate0 pseudo_now s_fs dec_of_N take_digits b2n.
